@@ -36,7 +36,8 @@ ASSUMPTIONS = ["(c) waits link_timeout + check period + one probe cycle of "
                "seconds"]
 REQUIRED = ["probes", "graphs", "graphs_with_cycles", "graphs_with_oneway",
             "histories", "changes_judged", "flood_probes", "link_events",
-            "both_directions_one_sweep", "quiet_periods_checked", "ports_hot_plugged"]
+            "both_directions_one_sweep", "quiet_periods_checked", "ports_hot_plugged",
+            "histories_with_dpids_equal_to_port_numbers"]
 TIMEOUT = {"quick": 1500, "thorough": 10800}
 
 _st = {}
@@ -342,7 +343,12 @@ def run_history (case, rep):
   disc = core.openflow_discovery
   n, wires = TOPOS[case["topo"]]
   _st["dpid"] = _st.get("dpid", 0x3000) + 16
-  topo = Topo(w, n, _st["dpid"],
+  base = _st["dpid"]
+  if case.get("small_dpids"):
+    # datapath ids 1..n: the same small numbers the ports carry
+    base = 1
+    rep.count("histories_with_dpids_equal_to_port_numbers")
+  topo = Topo(w, n, base,
               initial_ports=case.get("initial_ports", 4))
   for (i, p, j, q) in wires: topo.wire(i, p, j, q)
   mine = set(topo.dpids)
@@ -636,6 +642,7 @@ def gen_histories (rng, n, link_timeout=None):
       case["initial_ports"] = rng.choice([0, 1])
       case["ops"] = [["hotplug"]] + ops
     if link_timeout: case["link_timeout"] = link_timeout
+    if rng.random() < 0.35: case["small_dpids"] = True
     yield case
 
 
